@@ -45,6 +45,8 @@ type Daemon struct {
 	Calls []string
 	// FailLs makes PinLs / PinLsCid fail
 	FailLs bool
+	// FailFor, when set, makes ungated Pin/Unpin calls fail for chosen CIDs
+	FailFor func(kind string, c cid.Cid) bool
 }
 
 // NewDaemon returns an empty ungated daemon.
@@ -58,7 +60,11 @@ func (d *Daemon) EventCount() int64 { return atomic.LoadInt64(&d.Events) }
 func (d *Daemon) park(ctx context.Context, kind string, p *api.Pin) string {
 	d.mu.Lock()
 	if !d.Gate {
+		ff := d.FailFor
 		d.mu.Unlock()
+		if ff != nil && ff(kind, p.Cid) {
+			return "fail"
+		}
 		return "ok"
 	}
 	d.nextID++
